@@ -30,12 +30,29 @@ def have_text_csv():
     return subprocess.run(["perl", "-MText::CSV", "-e", "1"], stdout=subprocess.DEVNULL, stderr=subprocess.DEVNULL).returncode == 0
 
 
-def run_generators(work):
-    """Mirror the needed files, run both generator programs with the canonical relative arguments."""
+SYNTHETIC_ROWS = [("zzqretired", "generic", "Retired"), ("zzqnotassigned", "country-code", "Not assigned"), ("zzqsponsored", "sponsored", "Example Registry, Inc."),
+                  ("zzqrestricted", "generic-restricted", "Example Registry"), ("zzqinfra", "infrastructure", "Example"), ("zzqtest", "test", "Example"),
+                  ("xn--zzq-retired-9ya", "generic", "Retired")]
+
+
+def run_generators(work, extra_rows=()):
+    """Mirror the needed files, run both generator programs with the canonical relative arguments.  extra_rows: rows appended to both
+    CSV copies (one per documented rule, canonical spellings), to see the generators apply every rule they document."""
     for d in ("include/eav", "src", "data", "util"):
         os.makedirs(os.path.join(work, d), exist_ok=True)
     for f in ("util/gentld.pl", "util/gen_utf8_pass_test.pl", "data/punycode.csv", "data/raw.csv"):
         shutil.copy(os.path.join(REPO, f), os.path.join(work, f))
+    if extra_rows:
+        for f in ("data/punycode.csv", "data/raw.csv"):
+            with open(os.path.join(work, f), "rb") as fh:
+                body = fh.read()
+            nl = b"\r\n" if b"\r\n" in body[:2000] else b"\n"
+            if not body.endswith(b"\n"):
+                body += nl
+            for r in extra_rows:
+                body += b",".join(b'"' + x.encode("utf-8") + b'"' for x in r) + nl
+            with open(os.path.join(work, f), "wb") as fh:
+                fh.write(body)
     inc = [] if have_text_csv() else ["-I" + os.path.join(core.VERIF, "shim", "perl")]
     env = dict(os.environ, LC_ALL="C.UTF-8")
     r1 = subprocess.run(["perl"] + inc + ["util/gentld.pl", "include/eav/auto_tld.h", "src/auto_tld.c", "data/punycode.csv"],
@@ -85,6 +102,32 @@ def main(tier, seed):
         for ln, x, y in d[:50]:
             disagreements += 1
             rep.violation("regenerated-differs/%s" % rel, {"file": rel, "line": ln}, {"generated": x, "shipped": y})
+    # the generators on the shipped CSVs plus one synthetic row per documented rule ('Retired' and 'Not assigned' managers, each IANA
+    # type): the generated table classifies each as documented and the generated test list names exactly the table's domains
+    work2 = os.path.join(cx.dir, "mirror-synthetic")
+    s1, s2, _ = run_generators(work2, SYNTHETIC_ROWS)
+    if s1.returncode != 0 or s2.returncode != 0:
+        rep.violation("generator-fails/synthetic-rows", {"rows": [r[0] for r in SYNTHETIC_ROWS]},
+                      {"gentld": s1.stdout.decode("utf-8", "replace")[-400:], "gen_utf8_pass_test": s2.stdout.decode("utf-8", "replace")[-400:]})
+    else:
+        gen_rows = {n: c for n, _, c in OD.load_tld_table(work2)}
+        listed = set()
+        for l in open(os.path.join(work2, "data", "tld-domains.txt"), encoding="utf-8", errors="replace"):
+            l = l.strip()
+            if l and not l.startswith("#"):
+                listed.add(l.split(".")[-1].encode("utf-8"))
+        for r in SYNTHETIC_ROWS:
+            rep.counters["generator.synthetic-rows"] += 1
+            wantc = documented_class(r)
+            got = gen_rows.get(r[0].encode())
+            if got != wantc:
+                rep.violation("generator/synthetic-row-class/%s" % wantc, {"row": list(r)}, {"generated_class": got, "documented_class": wantc})
+            if r[0].encode() not in listed:
+                rep.violation("generator/test-list-omits-a-table-row/%s" % wantc, {"row": list(r)}, {"listed": False})
+        # (the list is generated from raw.csv and spells IDN rows as U-labels: only the sizes are compared here; the row-by-row pairing
+        # of raw.csv and punycode.csv is checked below)
+        if len(listed) != len(gen_rows):
+            rep.violation("generator/test-list-and-table-differ-in-size", {"list": len(listed), "table": len(gen_rows)}, None)
     # independent reading of the CSVs
     hdr, prow = read_csv(os.path.join(REPO, "data", "punycode.csv"))
     _, rrow = read_csv(os.path.join(REPO, "data", "raw.csv"))
